@@ -120,7 +120,7 @@ def parse_tla(s):
 def run_tlc(module, cfg=None, env=None, workers=1, timeout=600, extra=(), cwd=None, simulate=None):
     """Run TLC on spec/<module>.tla; returns (stdout, seconds)."""
     meta = scratch_dir()
-    cmd = ["java", "-XX:+UseParallelGC", "-Xmx3g", "-cp", JAR, "tlc2.TLC", "-workers", str(workers), "-metadir", meta, "-noGenerateSpecTE"]
+    cmd = ["java", "-XX:+UseParallelGC", "-Xmx3g", "-Xss64m", "-cp", JAR, "tlc2.TLC", "-workers", str(workers), "-metadir", meta, "-noGenerateSpecTE"]
     if cfg:
         cmd += ["-config", cfg]
     if simulate:
@@ -198,5 +198,6 @@ def validate_batch(module, traces, timeout=600):
     gen, dist = stats(out)
     ok = "Model checking completed" in out or "Finished in" in out
     if not ok or len(verdicts) != len(traces):
-        raise TlcError("trace validation did not complete (%d/%d verdicts)\n%s" % (len(verdicts), len(traces), out[-3000:]))
+        i = out.find("Error:")
+        raise TlcError("trace validation did not complete (%d/%d verdicts)\n%s" % (len(verdicts), len(traces), out[i : i + 2500] if i >= 0 else out[-2500:]))
     return verdicts, {"generated": gen, "distinct": dist, "seconds": secs, "skips": skips}, out
